@@ -7,6 +7,10 @@ static long gen_api(const std::string& op, int i, int j, const std::string& fmt)
     if ((int)v.size() <= j) v.resize(j + 1);
     if (op == "copy") {           // copy-construct j from (const) i
         const Top& src = inst(i);
+        // back/back11 queue closures stay bound to the object that created them (finding F6): an object that was ever
+        // copied from is kept alive until the next reset so that such a closure never runs on freed memory
+        static std::vector<std::unique_ptr<Top>> graveyard;
+        if (v[j]) graveyard.push_back(std::move(v[j]));
         v[j].reset(new Top(src)); gen_stamp(*v[j], j); return 0;
     }
     if (op == "assign") {         // copy-assign i to (existing or fresh) j
